@@ -206,3 +206,9 @@ def iso_fragments(m: int, n: int, seq: int) -> bool:
 
 
 _flags.int_format_placeholder = True
+
+
+def e2_obligations(tier):
+    """wide-range verification conditions over the AST of the real source (vf/e2.py, vf/e2k.py)"""
+    from vf import e2k
+    return [e2k.acl_fragmentation()]
